@@ -1380,6 +1380,13 @@ func (t *c8sites) varType(w c8where, name string, at ast.Node) (ast.Expr, c8wher
 								take(id.Pos(), &ast.SelectorExpr{X: &ast.Ident{Name: "level", NamePos: id.Pos()}, Sel: &ast.Ident{Name: "Chunk"}})
 							case "new":
 								take(id.Pos(), r.Args[0])
+							default:
+								// pk.NewFixedBitSet(n): a pk.FixedBitSet
+								if sel, ok := r.Fun.(*ast.SelectorExpr); ok && sel.Sel.Name == "NewFixedBitSet" {
+									if q, ok := sel.X.(*ast.Ident); ok && t.isPk(w, q.Name) {
+										take(id.Pos(), &ast.SelectorExpr{X: &ast.Ident{Name: q.Name, NamePos: id.Pos()}, Sel: &ast.Ident{Name: "FixedBitSet"}})
+									}
+								}
 							}
 						case *ast.CompositeLit:
 							take(id.Pos(), r.Type)
@@ -1624,6 +1631,11 @@ func (t *c8sites) readsOf(w c8where, rd string, e ast.Node) []string {
 		case sel.Sel.Name == "ReadFrom" || sel.Sel.Name == "Read":
 			t.fail(c, "a read that does not use the method's reader: %s", t.text(c))
 		}
+		for _, a := range c.Args {
+			if t.text(a) == rd {
+				t.fail(c, "the reader is handed to %s, which is not classified", t.text(c.Fun))
+			}
+		}
 		return true
 	})
 	return out
@@ -1679,9 +1691,14 @@ func (t *c8sites) hasFail(n ast.Node) bool {
 
 func (t *c8sites) reads(w c8where, rd string, l []ast.Stmt) []string {
 	var out []string
+	lastIdent := ""
 	for _, s := range l {
 		if !t.hasRead(rd, s) && !t.hasFail(s) {
 			continue
+		}
+		prevIdent := lastIdent
+		if id := t.readIdent(rd, s); id != "" {
+			lastIdent = id
 		}
 		switch x := s.(type) {
 		case *ast.ExprStmt, *ast.AssignStmt:
@@ -1718,11 +1735,54 @@ func (t *c8sites) reads(w c8where, rd string, l []ast.Stmt) []string {
 				t.choice++
 				out = append(out, fmt.Sprintf("DChoice %d (DSeq [%s]) (DSeq [%s])", t.choice, strings.Join(a, "; "), strings.Join(b, "; ")))
 			}
+		case *ast.ForStmt:
+			// for i := 0; i < int(x); i++ { reads }: x is the VarInt read last
+			if x.Init == nil || x.Cond == nil || x.Post == nil || t.text(x.Init) != "i := 0" || t.text(x.Post) != "i++" {
+				t.fail(x, "loop with reads inside that is not `for i := 0; i < int(x); i++`")
+			}
+			cond := t.text(x.Cond)
+			if !strings.HasPrefix(cond, "i < int(") || !strings.HasSuffix(cond, ")") {
+				t.fail(x, "loop condition %s", cond)
+			}
+			bound := cond[len("i < int(") : len(cond)-1]
+			if len(out) == 0 || out[len(out)-1] != "DF TVarInt" || prevIdent != bound {
+				t.fail(x, "the loop bound %s is not the VarInt read just before the loop", bound)
+			}
+			body := t.reads(w, rd, x.Body.List)
+			out[len(out)-1] = "DLoop (DSeq [" + strings.Join(body, "; ") + "])"
 		default:
 			t.fail(s, "statement with a read, a panic or an error return inside: %s (%T)", t.text(s), s)
 		}
 	}
 	return out
+}
+
+// the identifier whose ReadFrom is called by the (init of the) statement, if it is a plain identifier
+func (t *c8sites) readIdent(rd string, s ast.Stmt) string {
+	var n ast.Node
+	switch x := s.(type) {
+	case *ast.IfStmt:
+		if x.Init == nil {
+			return ""
+		}
+		n = x.Init
+	case *ast.AssignStmt, *ast.ExprStmt, *ast.ReturnStmt:
+		n = s
+	default:
+		return ""
+	}
+	name := ""
+	ast.Inspect(n, func(m ast.Node) bool {
+		if c, ok := m.(*ast.CallExpr); ok {
+			if sel, ok := c.Fun.(*ast.SelectorExpr); ok && sel.Sel.Name == "ReadFrom" && len(c.Args) == 1 {
+				if id, ok := sel.X.(*ast.Ident); ok {
+					name = id.Name
+				}
+			}
+		}
+		return true
+	})
+	return name
 }
 
 var c8scanDirs = []string{"bot", "bot/basic", "bot/msg", "bot/playerlist", "bot/screen", "bot/world", "server", "server/auth"}
@@ -1765,6 +1825,25 @@ func genC08sites(repo string, out *bytes.Buffer) {
 				})
 			}
 		}
+	}
+	// packet handlers that decode p.Data by hand (r := bytes.NewReader(p.Data), then ReadFrom calls)
+	for _, h := range [][2]string{{"bot/playerlist", "handlePlayerInfoUpdatePacket"}, {"bot/playerlist", "handlePlayerInfoRemovePacket"}} {
+		p := t.load(h[0])
+		var fd *ast.FuncDecl
+		var file *ast.File
+		for _, f := range p.files {
+			for _, d := range f.Decls {
+				if x, ok := d.(*ast.FuncDecl); ok && x.Name.Name == h[1] && x.Body != nil {
+					fd, file = x, f
+				}
+			}
+		}
+		if fd == nil || len(fd.Body.List) == 0 || t.text(fd.Body.List[0]) != "r := bytes.NewReader(p.Data)" {
+			panic(c8fail{fmt.Sprintf("%s: handler %s not found or does not start with r := bytes.NewReader(p.Data)", h[0], h[1])})
+		}
+		w := c8where{p: p, file: file, fn: fd}
+		ds := t.reads(w, "r", fd.Body.List[1:])
+		scans = append(scans, rowT{h[0] + "/" + filepath.Base(t.fset.Position(file.Pos()).Filename) + ":" + h[1], t.text(fd.Body), "DSeq [" + strings.Join(ds, "; ") + "]"})
 	}
 	for _, dir := range c8methodDirs {
 		p := t.load(dir)
